@@ -17,7 +17,7 @@ RULE = ('cases = (table sizes incl. 0,1,2,254..257,300 and random; protocol vers
         'reached `connected` with at least one table entry.')
 ASSUMPTIONS = ['simulated device implements the firmware TOC protocol (V1 and V2) as documented',
                'platform / link-control requests are never lost (the library sends them without retry)']
-REQUIRED = ['mon.sessions_opened_again_without_closing_on_another_parameter_table', 'mon.sessions_after_a_link_error_mid_download_and_another_parameter_table', 'mon.stale_log_reset_answers_at_the_start_of_the_next_session', 'mon.stale_item_answers_in_the_format_of_the_other_protocol_generation', 'mon.stale_item_answers_right_in_front_of_the_table_info_answer', 'mon.copies_of_item_answers_arriving_in_the_extended_type_phase', 'mon.cached_sessions_with_one_checksum_for_both_tables', 'mon.tables_at_connected', 'mon.lookup_entries', 'mon.stale_sessions', 'mon.lossy_retransmissions',
+REQUIRED = ['mon.sessions_after_a_link_error_mid_download_and_another_parameter_table', 'mon.stale_log_reset_answers_at_the_start_of_the_next_session', 'mon.stale_item_answers_in_the_format_of_the_other_protocol_generation', 'mon.stale_item_answers_right_in_front_of_the_table_info_answer', 'mon.copies_of_item_answers_arriving_in_the_extended_type_phase', 'mon.cached_sessions_with_one_checksum_for_both_tables', 'mon.tables_at_connected', 'mon.lookup_entries', 'mon.stale_sessions', 'mon.lossy_retransmissions',
             'mon.v1_cases', 'mon.over_255', 'mon.cache_reconnects', 'mon.early_param_packets',
             'mon.stale_item_replies_mid_download', 'mon.cache_shared_with_another_firmware',
             'mon.cache_files_in_an_older_format']
@@ -195,7 +195,7 @@ def run(desc, ctx):
                 guard += 1
             link1 = cf.link
             log_table_begun = cf.log.toc is not None
-            variant = desc['seed'] % 3 if (link1 is not None and not done.is_set() and len(dev.params) >= 2) else 0
+            variant = desc['seed'] % 2 if (link1 is not None and not done.is_set() and len(dev.params) >= 2) else 0
 
             def reflash():
                 dev.params.reverse()
@@ -220,12 +220,6 @@ def run(desc, ctx):
                     cf.close_link()
                 reflash()
                 obs['reflashed_after_link_error'] = True
-            elif variant == 2:
-                # the application does not close at all: it opens the link again on the same object while session 1 is
-                # still in the middle of its downloads (the Crazyflie was restarted with another firmware); the old driver
-                # object is dropped by the library and ends when the application's process lets go of it
-                reflash()
-                obs['reopened_without_closing'] = True
             else:
                 cf.close_link()
             left = [(h, d) for (_, _, h, d) in sorted(link1._inflight)] if link1 is not None else []
@@ -306,8 +300,6 @@ def run(desc, ctx):
                 cf.connection_failed.add_callback(lambda *a: done.set())
             obs['cf2'] = cf
         cf.open_link(uri)
-        if obs.get('reopened_without_closing') and pol == 'stale' and link1 is not cf.link:
-            link1.close()
         if pol in ('cachenotify', 'notify') and cf.link is not None:
             early_param_packets(cf.link)
             if pol == 'cachenotify' and desc['seed'] % 2 == 0:
@@ -359,7 +351,7 @@ def run(desc, ctx):
         ctx.violate('toc:thread-died:%s' % exc.split('(')[0], {'thread': name, 'traceback': tb}, replay=rp)
     if not obs['connected']:
         ctx.violate('toc:download-incomplete', {'policy': pol, 'rx': len(spec.rx), 'tx': len(spec.tx),
-                                                'last_tx': [t[2:4] for t in spec.tx[-4:]], 'last_table_tx': [(round(t[0], 4), t[1], t[2], bytes(t[3]).hex()) for t in spec.tx if (t[2] >> 4) in (2, 5, 4)][-8:], 'last_table_rx': [(round(t[0], 4), t[1], t[2], bytes(t[3]).hex()) for t in spec.rx if (t[2] >> 4) in (2, 5, 4)][-6:], 'reflashed': obs.get('reflashed_after_link_error'), 'reopened': obs.get('reopened_without_closing')}, replay=rp)
+                                                'last_tx': [t[2:4] for t in spec.tx[-4:]], 'last_table_tx': [(round(t[0], 4), t[1], t[2], bytes(t[3]).hex()) for t in spec.tx if (t[2] >> 4) in (2, 5, 4)][-8:], 'last_table_rx': [(round(t[0], 4), t[1], t[2], bytes(t[3]).hex()) for t in spec.rx if (t[2] >> 4) in (2, 5, 4)][-6:], 'reflashed': obs.get('reflashed_after_link_error')}, replay=rp)
         return
     for (snap, issues) in obs['connected']:
         ctx.count('mon.tables_at_connected')
@@ -370,7 +362,6 @@ def run(desc, ctx):
         for m, d in issues:
             ctx.violate('toc:' + m, d, replay=rp)
     ctx.count('mon.lookup_entries', obs['lookups'])
-    ctx.count('mon.sessions_opened_again_without_closing_on_another_parameter_table', 1 if obs.get('reopened_without_closing') else 0)
     ctx.count('mon.sessions_after_a_link_error_mid_download_and_another_parameter_table', 1 if obs.get('reflashed_after_link_error') else 0)
     ctx.count('mon.copies_of_item_answers_arriving_in_the_extended_type_phase', obs.get('late_item_copies', 0))
     ctx.count('mon.stale_log_reset_answers_at_the_start_of_the_next_session', 1 if obs.get('stale_log_reset_answer') else 0)
